@@ -1,6 +1,9 @@
 package main
 
 import (
+	"fmt"
+	"go/types"
+
 	"golang.org/x/tools/go/ssa"
 )
 
@@ -62,4 +65,87 @@ func (p *Program) callCycle(caller, callee *ssa.Function) bool {
 		p.reach[callee] = r
 	}
 	return r[caller]
+}
+
+// staticLockOnce: the one-critical-section-per-method duty (C14) does not depend on data: two Lock/RLock calls on the
+// guarding mutex of the receiver, one reachable from the other, are two critical sections whatever happens in between.
+// Emitted before the paths are run, so that it is reported even when the function leaves the supported subset.
+func (x *Exec) staticLockOnce(st *State) {
+	recv := x.fn.Signature.Recv()
+	if recv == nil {
+		return
+	}
+	rt := recv.Type()
+	if p, ok := rt.(*types.Pointer); ok {
+		rt = p.Elem()
+	}
+	g := x.p.guardFor(rt)
+	if g == nil || g.Mutex == "" {
+		return
+	}
+	isC14 := false
+	for _, p := range g.Props {
+		if p == "C14" {
+			isC14 = true
+		}
+	}
+	if !isC14 {
+		return
+	}
+	type site struct {
+		in  ssa.Instruction
+		blk *ssa.BasicBlock
+		idx int
+	}
+	var sites []site
+	for _, b := range x.fn.Blocks {
+		for k, in := range b.Instrs {
+			c, ok := in.(*ssa.Call)
+			if !ok {
+				continue
+			}
+			fn := c.Call.StaticCallee()
+			if fn == nil || fn.Pkg == nil || fn.Pkg.Pkg.Path() != "sync" || (fn.Name() != "Lock" && fn.Name() != "RLock") || len(c.Call.Args) == 0 {
+				continue
+			}
+			fa, ok := c.Call.Args[0].(*ssa.FieldAddr)
+			if !ok {
+				continue
+			}
+			stt, ok := fa.X.Type().Underlying().(*types.Pointer).Elem().Underlying().(*types.Struct)
+			if !ok || stt.Field(fa.Field).Name() != g.Mutex {
+				continue
+			}
+			sites = append(sites, site{in, b, k})
+		}
+	}
+	reach := func(from, to *ssa.BasicBlock) bool {
+		seen := map[*ssa.BasicBlock]bool{}
+		var dfs func(b *ssa.BasicBlock) bool
+		dfs = func(b *ssa.BasicBlock) bool {
+			for _, s := range b.Succs {
+				if s == to {
+					return true
+				}
+				if !seen[s] {
+					seen[s] = true
+					if dfs(s) {
+						return true
+					}
+				}
+			}
+			return false
+		}
+		return dfs(from)
+	}
+	for _, a := range sites {
+		for _, b := range sites {
+			if a.in == b.in {
+				continue
+			}
+			if (a.blk == b.blk && a.idx < b.idx) || (a.blk != b.blk && reach(a.blk, b.blk)) {
+				x.oblige(st, "lock-once", x.pos(b.in.Pos()), fmt.Sprintf("one critical section per method (linearization point): %s.%s is locked here again after the lock at %s", g.Type, g.Mutex, x.pos(a.in.Pos())), []string{"C14"}, tFalse)
+			}
+		}
+	}
 }
